@@ -127,7 +127,8 @@ def gen_history(rng, tier):
             w[op] = 0
         else:
             w[op] = max(1, w[op] * rng.range(1, 4) // 2)
-    kinds = [("e", rng.range(1, 6)), ("i", rng.range(0, 3)), ("d", rng.range(0, 4))]
+    # g: the root word lies in foreign memory (falls back to an exact root while there is none)
+    kinds = [("e", rng.range(1, 6)), ("i", rng.range(0, 3)), ("d", rng.range(0, 4)), ("g", rng.range(0, 3) if w.get("o") else 0)]
     kinds = [k for k in kinds if k[1] > 0] or [("e", 1)]
     weights = [(op, w[op]) for op in OPS if w[op] > 0]
     lines = ["cfg seed %d" % rng.below(1 << 30)]
